@@ -77,6 +77,15 @@ def crafted():
     c.append(("string-1e6", b'char s[] = "' + b"a" * 1000000 + b'";\n'))
     c.append(("macro-args-1e4", b"#define F(x) x\nint a = F(" + b"(" * 3000 + b"1" + b")" * 3000 + b");\n"))
     c.append(("macro-chain", b"".join(b"#define M%d M%d\n" % (i, i + 1) for i in range(3000)) + b"#define M3000 7\nint a = M0;\n"))
+    for n in (255, 256, 257, 511, 512, 513, 1023, 1024, 1025, 4095, 4096, 4097):
+        c.append(("ident-%d" % n, b"int " + b"a" * n + b" = 1;\n"))
+        c.append(("number-%d" % n, b"int x = " + b"1" * n + b";\n"))
+        c.append(("string-%d" % n, b'char s[] = "' + b"s" * n + b'";\n'))
+        c.append(("stringize-%d" % n, b"#define S(x) #x\nchar s[] = S(" + b"a" * n + b");\n"))
+        c.append(("stringize2-%d" % n, b"#define S(x) #x\nchar s[] = S(" + b"b" * 100 + b" " + b"a" * n + b");\n"))
+        c.append(("stringize-num-%d" % n, b"#define S(x) #x\nchar s[] = S(x " + b"7" * n + b" y);\n"))
+        c.append(("stringize-str-%d" % n, b'#define S(x) #x\nchar s[] = S("' + b"q" * n + b'" 1);\n'))
+        c.append(("macro-body-%d" % n, b"#define M " + b"a" * n + b"\nint M;\n"))
     c.append(("empty", b""))
     c.append(("nul", b"\x00"))
     c.append(("only-hash", b"#"))
@@ -95,9 +104,105 @@ def crafted():
     return c
 
 
+def gen_buffer_ops(rng, nseq, maxops):
+    """op sequences for harness/util_h.c / drv_c19; sizes are chosen around the capacity thresholds of the
+    documented doubling scheme (this prediction only steers the generator, it is not an oracle)"""
+    seqs = []
+    for _ in range(nseq):
+        ops, ln, cap = ["new"], 0, 0
+        bl, bc = 0, 0
+        for _ in range(rng.randrange(1, maxops)):
+            k = rng.random()
+            if k < 0.70:
+                free = cap - ln
+                n = rng.choice([1, 8, 24, 48, max(free - 1, 1), max(free, 1), free + 1, cap + 1, max(2 * cap - ln, 1),
+                                2 * cap - ln + 1, max(2 * cap - 1, 1), 2 * cap, rng.randrange(1, 3 * max(cap, 256)),
+                                rng.randrange(1, 64), 255, 256, 257])
+                n = max(n, 1)
+                ops.append("add %d" % n)
+                if cap - ln < n:
+                    while True:
+                        cap = cap * 2 if cap else 256
+                        if cap - ln >= n:
+                            break
+                ln += n
+            elif k < 0.95:
+                m = rng.choice([1, 3, 17, 255, 256, 257, max(bc - bl, 1), bc - bl + 1, rng.randrange(1, 1200)])
+                ops.extend(["buf"] * m)
+                bl += m
+                while bc < bl:
+                    bc = bc * 2 if bc else 256
+            else:
+                ops.append("bufreset")
+                bl = 0
+        seqs.append(ops)
+    return seqs
+
+
+def run_buffers(ck):
+    """K-A: util.c arrayadd and scan.c bufadd (real text, ASan) against Model/Util.lean (the model of the theorems
+    arrayadd_fits / bufadd_fits), on generated operation sequences."""
+    units = [u for u in common.REPO_UNITS if u != "scan"]
+    try:
+        h = ck.build_harness("util_h.c", units, sanitize=True)
+    except common.CompileError as e:
+        ck.harness_broken("util_h.c", e)
+        return
+    seqs = gen_buffer_ops(ck.rng, 60 if ck.quick else 1500, 40)
+    seqs.insert(0, ["new", "add 100", "add 500"])            # corpus: second addition larger than the doubled capacity
+    seqs.insert(0, ["new"] + ["buf"] * 257 + ["bufreset"] + ["buf"] * 600)
+    text = "\n".join("\n".join(q) for q in seqs) + "\n"
+    model = ck.run_drv(text)
+    env = dict(os.environ, ASAN_OPTIONS="detect_leaks=0")
+    p = subprocess.run([h], input=text.encode(), stdout=subprocess.PIPE, stderr=subprocess.PIPE, env=env, timeout=600)
+    real = p.stdout.decode().splitlines()
+    flat = [(si, oi, op) for si, q in enumerate(seqs) for oi, op in enumerate(q)]
+    st = {"sequences": len(seqs), "operations": len(flat), "adds": sum(1 for f in flat if f[2].startswith("add")),
+          "bufadds": sum(1 for f in flat if f[2] == "buf"), "grow-events": 0}
+    prevcap = None
+    for (si, oi, op), m in zip(flat, model):
+        if op.startswith(("add", "buf")) and op != "bufreset":
+            c = int(m.split()[2])
+            if prevcap is not None and c != prevcap:
+                st["grow-events"] += 1
+            prevcap = c
+        else:
+            prevcap = None
+    ck.cov["buffers"] = st
+    for i in range(len(flat)):
+        ck.count(("buf", flat[i][2], model[i]))
+    bad = None
+    for i, (si, oi, op) in enumerate(flat):
+        if i >= len(real):
+            bad = (i, "the harness died here (rc=%s): %s" % (p.returncode, p.stderr.decode(errors="replace")[-1200:]))
+            break
+        if real[i] != model[i]:
+            bad = (i, None)
+            break
+    if bad is None:
+        return
+    i, died = bad
+    si, oi, op = flat[i]
+    seq = seqs[si][:oi + 1]
+    rep = {"kind": "buffer-ops", "ops": seq, "model": model[i], "util.c/scan.c": real[i] if i < len(real) else None}
+    unsafe = died
+    if not died and op != "bufreset" and op != "new":
+        off, ln, cap = map(int, real[i].split())
+        n = int(op.split()[1]) if op.startswith("add") else 1
+        if off + n > cap or ln > cap:
+            unsafe = "bytes [%d, %d) handed out of an allocation of %d bytes" % (off, off + n, cap)
+    if unsafe:
+        ck.violation(dict(rep, what="a growable buffer hands out memory outside its allocation", detail=unsafe))
+    else:
+        ck.violation(dict(rep, what="util.c/scan.c and Model/Util.lean disagree although every write stayed inside the allocation",
+                          theorem="CprocVerif.C19.arrayadd_fits / bufadd_fits (model no longer describes the code)"), nofail=True)
+
+
 def run(ck):
     rng = ck.rng
     ck.lean_build()
+    if ck.drv_ok:
+        run_buffers(ck)
     san = ck.build_cproc_qbe(sanitize=True)
     plain = ck.build_cproc_qbe()
     d = os.path.join(ck.scratch(), "c19")
